@@ -63,8 +63,8 @@ Definition explain (lines : list (list N)) (o : obs) : N :=
   let reqln := line_at lines (o_pl o) in
   (* repaired in /repo and not explained any more: bit 1 directive_range_end_unset (46ef8ab),
      bit 2 nonbmp_rune_columns and bit 64 tag_columns_are_byte_offsets (6efc7b5) *)
-  if (o_code o =? 2)%N && negb ((o_feat o =? 1)%N) then 4%N                           (* payee_range_is_an_estimate *)
-  else if (o_code o =? 4)%N && (sl r =? el r) &&
+  (* bit 4 (payee_range_is_an_estimate) was repaired in /repo 45141d0 and is not explained any more *)
+  if (o_code o =? 4)%N && (sl r =? el r) &&
           match o_text o with Some t => is_infix t (text_under lines r) | None => false end then 8%N   (* commodity_range_with_quotes_or_blanks *)
   else if (o_feat o =? 6)%N then 16%N                                                 (* link_range_includes_keyword *)
   else 0%N.
